@@ -314,6 +314,8 @@ type DefCase struct {
 	Desc   string       `json:"desc"`
 	Kw     string       `json:"kw"`
 	Chain  string       `json:"chain"`
+	Exact  bool         `json:"exact,omitempty"` // special family: the round trip must be exact
+	Base   bool         `json:"base,omitempty"`  // discriminated base type: decoded through its Unmarshal<T> factory
 }
 
 // Doc returns a minimal document containing the definition.
